@@ -37,12 +37,19 @@ def model_strategy(draw, tier, linked=True):
     nparts = draw(st.integers(2, min(4, n)))
     part = list(range(nparts)) + [draw(st.integers(0, nparts - 1)) for _ in range(n - nparts)]
     # link latency: dyadic ticks or a float-unfriendly decimal number of milliseconds
-    lat = draw(st.sampled_from([("t", 1), ("t", 2), ("t", 5), ("ms", 1), ("ms", 3), ("ms", 7), ("ms", 10)]))
-    win = draw(st.sampled_from(["none", "full", "half", "third", "0.3"]))
+    # "grid" cases (a third): everything exactly on window barriers — tick latencies, window = L, initial events on barriers,
+    # cross-partition emits with delay exactly L — so arrivals coincide with barriers and with local work of the destination
+    grid = draw(st.sampled_from([False, False, True]))
+    if grid:
+        lat = draw(st.sampled_from([("t", 1), ("t", 2), ("t", 5)]))
+        win = draw(st.sampled_from(["none", "full"]))
+    else:
+        lat = draw(st.sampled_from([("t", 1), ("t", 2), ("t", 5), ("ms", 1), ("ms", 3), ("ms", 7), ("ms", 10)]))
+        win = draw(st.sampled_from(["none", "full", "half", "third", "0.3"]))
     emit = st.fixed_dictionaries({
         "tgt": st.integers(0, n - 1), "kind": st.integers(0, 2),
-        "dt": st.sampled_from([0, 0, 1, 1, 2, 3, 7]),       # local delay in ticks / extra delay on top of L for cross emits
-        "j": st.sampled_from([0, 0, 0, 1, 2]),              # ns jitter (>= 0)
+        "dt": st.sampled_from([0, 0, 0, 1] if grid else [0, 0, 1, 1, 2, 3, 7]),   # local delay in ticks / extra delay on top of L for cross emits
+        "j": st.just(0) if grid else st.sampled_from([0, 0, 0, 1, 2]),           # ns jitter (>= 0)
     })
     beh = st.fixed_dictionaries({
         "delay": st.sampled_from([None, None, 0, 1, 2]),     # None: immediate handler; else generator yielding `delay` ticks first
@@ -52,7 +59,7 @@ def model_strategy(draw, tier, linked=True):
     init = st.fixed_dictionaries({
         "tgt": st.integers(0, n - 1), "kind": st.integers(0, 2),
         "w": st.integers(0, 6),                              # window index: time = w * window + off
-        "off": st.sampled_from([0, 0, -1, 1, 2, "h"]),       # exactly at / 1 ns before / after a boundary / mid-window
+        "off": st.just(0) if grid else st.sampled_from([0, 0, -1, 1, 2, "h"]),   # exactly at / 1 ns before / after a boundary / mid-window
         "gap": st.sampled_from([0, 0, 0, 5, 20]),            # extra idle windows before this event
     })
     initial = draw(st.lists(init, min_size=1, max_size=8 if tier == "quick" else 12))
@@ -66,7 +73,9 @@ def model_strategy(draw, tier, linked=True):
             "topo": draw(st.sampled_from(["all", "all", "chain", "sink0", "subset"])), "topobits": draw(st.integers(0, 4095)),
             # links carry their own latency distribution (constant L + x ticks): the coordinator re-stamps every cross-partition
             # event with send time + that latency, so the model emits its cross events with exactly that delay
-            "linklat": draw(st.sampled_from([None, None, None, 0, 1, 3]))}     # which entities are registered as partition *sources*
+            "linklat": draw(st.sampled_from([None, None, None, 0, 1, 3])),
+            # per ordered pair of partitions: its link's min latency is L x (1 + latvar[...] % 3) — links differ from one another
+            "latvar": draw(st.lists(st.integers(0, 2), min_size=1, max_size=12))}     # which entities are registered as partition *sources*
 
 
 def lat_ns(case):
@@ -126,6 +135,12 @@ def allowed_links(case, names):
     return set(pairs)
 
 
+def link_mult(case, a, b):
+    """Multiplier (1..3) of the base min latency for the link a -> b."""
+    lv = case.get("latvar") or [0]
+    return 1 + int(lv[(a * 4 + b) % len(lv)]) % 3
+
+
 def linklat_of(case):
     """Constant link latency in extra ticks, or None. Only with tick-based (dyadic) min latencies, whose float seconds are exact."""
     if case.get("linklat") is None or case["lat"][0] != "t":
@@ -154,10 +169,10 @@ def build(case):
             tgt = cands[em["tgt"] % len(cands)]
         dt = em["dt"] * TICK + em.get("j", 0)
         if part[tgt] != part[src] and linklat_of(case) is not None:
-            dt = L + linklat_of(case) * TICK
+            dt = L * link_mult(case, part[src], part[tgt]) + linklat_of(case) * TICK
             stats["cross"] += 1
         elif part[tgt] != part[src]:
-            dt += L
+            dt += L * link_mult(case, part[src], part[tgt])
             stats["cross"] += 1
         return Event(time=Instant(now + dt), event_type=KINDS[em["kind"] % 3], target=ents[tgt], context={"fuel": fuel})
 
@@ -256,12 +271,13 @@ def run_parallel(case, workers_all):
     links = []
     if case.get("linked", True):
         L = lat_ns(case) / 1e9
-        lat = None
-        if linklat_of(case) is not None:
-            from happysimulator.distributions.constant import ConstantLatency
-            lat = ConstantLatency((lat_ns(case) + linklat_of(case) * TICK) / 1e9)
+        from happysimulator.distributions.constant import ConstantLatency
         for (a, b) in sorted(allowed_links(case, set(names))):
-            links.append(PartitionLink(f"p{a}", f"p{b}", min_latency=L, latency=lat))
+            m = link_mult(case, a, b)
+            lat = None
+            if linklat_of(case) is not None:
+                lat = ConstantLatency((lat_ns(case) * m + linklat_of(case) * TICK) / 1e9)
+            links.append(PartitionLink(f"p{a}", f"p{b}", min_latency=L * m, latency=lat))
     end = end_ns_of(case)
     kw = {"end_time": Instant(end)} if end is not None else {}
     win, _ = window_s(case)
@@ -367,7 +383,7 @@ def execute_independent(case):
 RULE = ("stateless scripted entities (immediate and one-yield generator handlers; some registered as partition sources instead of "
         "entities) spread over 2-4 partitions, linked pairwise, as a one-way chain, all into one sink partition, or by a generated subset "
         "of ordered pairs (cross-partition emits follow existing links), with "
-        "min_latency L in {1,2,5 ticks of 1/512 s, 1,3,7,10 ms}; cross-partition emits carry delay L + extra (extra may be 0), local "
+        "min_latency L x (1..3, drawn per link) with L in {1,2,5 ticks of 1/512 s, 1,3,7,10 ms}; a third of the cases put everything exactly on window barriers; cross-partition emits carry delay L + extra (extra may be 0), local "
         "emits arbitrary; window_size in {default, L, L/2, L/3, 0.3 L}; initial events placed exactly at, 1 ns before/after and in the "
         "middle of window boundaries with idle gaps of up to 20 windows; end_time none / on / off a boundary; max_workers 1 or "
         "#partitions; non-trivial = at least one cross-partition event was sent and >= 4 deliveries happened")
